@@ -409,6 +409,14 @@ class Gen:
                         g.mode = "plain"
                     twin.append(g)
                 variants.insert(r.randrange(len(variants) + 1), Variant(f"V{len(variants)}", src.shape, twin))
+        # now and then nothing but a pair of twins, the longer representation second
+        if not fieldless and r.random() < 0.12:
+            t = r.choice(UINTS)
+            shape = r.choice(["tuple", "named"])
+            nm = "f0" if shape == "named" else None
+            longer = r.choice(["compact", "encoded_as"])
+            variants = [Variant("V0", shape, [Field(nm, t)]),
+                        Variant("V1", shape, [Field(nm, t, longer, as_ty=f"Compact<{t.rust}>" if longer == "encoded_as" else None)])]
         mode = force or r.choice(["position", "attr", "disc", "mixed", "mixed", "skipmix"])
         d = Def(self.fresh("E"), "enum", variants=variants, repr_u8=repr_u8)
         # skipped variants
